@@ -179,6 +179,49 @@ ROUND5 = {
 }
 
 
+ROUND6 = {
+ "C01-mutK": ("demodulate processes long frames block-wise (M x N distance matrix capped at 2^22); the trailing partial block is never demodulated", "one demodulate call with more than 2^22 / M samples and a length that is no multiple of the block"),
+ "C01-mutL": ("PSK Gray permutation via argsort(binary2gray(arange(M))): the IndexError that rejected non-powers of two is gone", "PSK(6), PSK(7), PSK(13) ... (orders on which the float assert 2**log2(M) == M passes by luck)"),
+ "C02-mutK": ("OFDM.set_parameters stores fft_size / cp_size before validating the used-subcarrier count", "set_parameters rejected for its used count (ValueError) with another fft/cp, then the same object keeps being used"),
+ "C02-mutL": ("one-tap equaliser divides via conj(H) / (|H|^2 + eps)", "a used subcarrier in a deep fade (|H| < 1e-5) or a tiny overall gain (150 dB path loss)"),
+ "C03-mutK": ("frequency-domain transmission turns the subcarrier selection into a boolean mask (ascending, duplicates dropped)", "a selection that is not ascending and unique (wrapped range, descending list, repeated carrier)"),
+ "C03-mutL": ("corrupt_data writes its output into a per-object buffer reused while the shape repeats", "two equal-sized transmissions through one channel object, the earlier output still in use"),
+ "C04-mutK": ("zero-forcing filter computed with np.linalg.pinv(channel, rcond=1e-6)", "full-column-rank channel with condition number above 1e6"),
+ "C04-mutL": ("Alamouti decoder vectorised, conjugating the second time slots in place on the caller's received array", "complex128 received samples used a second time (second decode / second receiver)"),
+ "C05-mutK": ("unpacked_parameters property sorted in natural order while get_unpacked_params_list keeps plain sorted order", "two unpacked parameters with numbered names ('gain2', 'gain10') and a lookup by fixed values"),
+ "C05-mutL": ("a skipped repetition breaks out of the repetition loop once skips exceed 10 x rep_max", "a combination whose skip rate exceeds 90 %"),
+ "C06-mutK": ("combine_simulation_results merges pairwise by position when both operands have the same unpacked values", "both operands on the same grid stored in non-ascending order (SNR = [10, 0, 5])"),
+ "C06-mutL": ("merge_all_results merges the stored results pairwise with zip instead of into the last stored result", "results for two or more variations appended to one object, then a single-valued set merged in"),
+ "C07-mutK": ("the repetition loop saves the partial results on KeyboardInterrupt before re-raising", "an interrupt between merge_all_results and the increment of the repetition counter"),
+ "C07-mutL": ("SimulationParameters.__eq__ compares floating-point values with np.allclose", "restart with a float parameter changed by less than allclose's tolerances (1e-9 -> 4e-9, 2.4e9 -> 2.40002e9)"),
+ "C08-mutK": ("get_Hk caches the per-receiver row split; the ext-int set_pathloss override does not drop the cache", "ext-int object: get_Hk read, set_pathloss, get_Hk read again"),
+ "C08-mutL": ("set_pathloss no longer freezes the caller's path-loss array it keeps by reference", "an element of the caller's array (or of channel.pathloss) overwritten in place"),
+ "C09-mutK": ("BD precoder assembled in arrays pre-allocated with the channel's dtype", "channel matrix stored with an integer dtype"),
+ "C09-mutL": ("scaled precoder written into a work array reused while the channel size repeats", "two calls on one object with same-size channels, the earlier solution kept"),
+ "C10-mutK": ("iterative solvers keep the caller's Ns array (np.asarray) instead of a copy", "Ns given as an integer ndarray that the caller reuses after solve"),
+ "C10-mutL": ("full_W_H falls back to W_H when |det(W^H H F)| < 1e-12 (absolute)", "two or more streams at small absolute power (P = 1 mW with 100 dB path loss)"),
+ "C11-mutK": ("external-interference covariance returns zeros when np.isclose(pe, 0)", "external interference power below 1e-8 in absolute units"),
+ "C11-mutL": ("solver memoises the first part of the interference covariance; not cleared when the channel object changes", "SINR query, channel.randomize / set_pathloss with precoders kept, second query"),
+ "C12-mutK": ("gains floored at machine epsilon before water-filling", "positive gains below 2.2e-16 (linear path-loss-scale gains)"),
+ "C12-mutL": ("module-level cache of recent solutions returns the stored allocation array by reference", "result modified in place by the caller, then the same problem asked again"),
+ "C13-mutK": ("Okumura-Hata range checks moved after the assignment in the setters", "a rejected parameter change (exception caught) followed by further use of the object"),
+ "C13-mutL": ("linear2dB floors its argument at 1e-20", "which_distance for a linear path loss beyond 200 dB"),
+ "C14-mutK": ("integer sample counter; skip adds the raw argument", "skip counts given as narrow numpy integer scalars (uint8 / int16 / int32)"),
+ "C14-mutL": ("per-ray rotations cached in a dict that copy.copy shares between generators", "shallow copy of a generator, one of the two re-shaped, equal block sizes requested from both"),
+ "C15-mutK": ("xor of arrays through np.bitwise_xor(np.asarray(a, dtype=int), ...)", "uint64 arrays holding values of 2^63 and above"),
+ "C15-mutL": ("count_bit_errors sums long frames block-wise; flat[-0:] adds the whole array again", "axis=None and a total size that is a multiple of 65536 (and larger than it)"),
+ "C16-mutK": ("PER replaced by packet_length * BER when BER < 1e-8", "high SNR together with a long packet (1e6 bits and more)"),
+ "C16-mutL": ("QPSK class overrides the BER with Q(sqrt(2 snr)) (per-bit instead of per-symbol SNR)", "the derived class QPSK()"),
+ "C17-mutK": ("SimulationParameters.__getstate__ leaves the parent parameters out of pickles", "an unpacked variation (or results holding one) saved through pickle"),
+ "C17-mutL": ("JSON encoder writes sorted(set)", "a set mixing strings / None with numbers"),
+ "C18-mutK": ("prime table generated by trial division with divisor*divisor < number (squares of primes slip in)", "size 540 (45 PRBs): base length 529 = 23^2 instead of 523"),
+ "C18-mutL": ("estimator keeps its zero-padded delay-domain buffer between calls and rewrites only the kept taps", "two calls of the same shape on one estimator, the second with fewer kept taps"),
+ "C19-mutK": ("vertical-edge test of get_border_point became np.isclose(v0.real, v1.real) (relative to the x coordinate)", "a cell small compared with its x coordinate (|x| / radius about 1e5 and more)"),
+ "C19-mutL": ("add_random_user draws one batch of 32 candidates and takes argmax(valid) without retry", "low acceptance: square cells with min_dist_ratio 0.65..0.7"),
+ "C20-mutK": ("dBm2Linear as dB2Linear(valueIndBm - 30)", "dBm values in an unsigned numpy container below 30 dBm"),
+ "C20-mutL": ("whitening clips the eigenvalues at 1e-12", "full-rank covariance of small absolute scale (interference plus noise in Watt)"),
+}
+
 def main():
     det, conf = {}, {}
     for line in open(os.path.expanduser("~/detect.log")):           # later lines (re-runs) override earlier ones
@@ -196,17 +239,24 @@ def main():
     both.update(ROUND3)
     both.update(ROUND4)
     both.update(ROUND5)
+    both.update(ROUND6)
     for mid, (what, needs) in sorted(both.items()):
         d = "/verif/seeded/%s" % mid
         if not os.path.isdir(d):
             print("missing", d)
             continue
         dd = det.get(mid, {})
+        old = {}
+        if os.path.exists(os.path.join(d, "meta.json")):
+            try:
+                old = json.load(open(os.path.join(d, "meta.json")))
+            except Exception:
+                old = {}
         kinds = []
         for o in dd.get("obligations", []):
             kinds.append(o)
         meta = {
-            "property": mid[:3], "name": mid, "round": 5 if mid in ROUND5 else 4 if mid in ROUND4 else 3 if mid in ROUND3 else 2,
+            "property": mid[:3], "name": mid, "round": 6 if mid in ROUND6 else 5 if mid in ROUND5 else 4 if mid in ROUND4 else 3 if mid in ROUND3 else 2,
             "what_changed": what, "needs_to_manifest": needs,
             "caught_by": dd.get("obligations", []),
             "check_exit_with_change_applied": dd.get("exit"),
@@ -215,9 +265,10 @@ def main():
             "confirmed_by_me": {
                 "how": "tools/confirm_mutants.sh in a scratch worktree of /repo HEAD: git apply patch.diff; demo.py exit status with and "
                        "without the patch; tools/baseline_check.py (full pytest run, every BASELINE stable_pass test must pass)",
-                "result": conf.get(mid, "see ~/mutant_confirm.log of the session"),
+                "result": conf.get(mid) or (old.get("confirmed_by_me") or {}).get("result") or "see ~/mutant_confirm.log of the session",
             },
-            "detection_run": "tools/try_mutant.sh seeded/%s/patch.diff %s (git -C /repo apply; ./check; git -C /repo checkout -- .)" % (mid, mid[:3]),
+            "detection_run": "tools/try_mutant.sh seeded/%s/patch.diff %s (git -C /repo apply; ./check; git -C /repo checkout -- .); the recorded run "
+                             "used tools/detect_all_wt.sh (the same on a scratch worktree of /repo's HEAD, check pointed at it with PYVC_REPO)" % (mid, mid[:3]),
         }
         json.dump(meta, open(os.path.join(d, "meta.json"), "w"), indent=1)
         n += 1
